@@ -14,6 +14,9 @@ The first token selects the number type the generic model is run at:
   `X esymm d xs`                            -> `e_d(xs)`
   `R conv tol thr every maxIter inf Ls`     -> `loglik it conv rows` (rows oldest first `it:loglik:conv;...`)
   `R best inf Ls`                           -> `maxL idx` (`idx` = index of the realisation kept, `-1` none)
+  `R session mode inf calls`                -> per call of `fit` on ONE object `maxL:call.idx` (`;`-separated): what the call
+                                               returns and which realisation of which call its `(u_f, w_f)` come from;
+                                               `calls` = `finals;finals;...`, `mode` = `fixed` (D52 repaired) or `stale`
   `R asm N K nonIso labels`                 -> 0/1 matrix
   `R noniso N edges`                        -> list -/
 open Wire C17
@@ -108,7 +111,22 @@ def indexOfBest (Ls : List Rat) (inf : Rat) : Rat × Int :=
   | (m, some i) => (m, i)
   | (m, none) => (m, -1)
 
+def showKept (r : Rat × Option (Nat × Nat)) : String :=
+  match r with
+  | (m, some (c, i)) => s!"{showRat m}:{c}.{i}"
+  | (m, none) => s!"{showRat m}:-1.-1"
+
+/-- the finals of every call tagged with (call index, realisation index) -/
+def tagCalls (calls : List (List Rat)) : List (List (Rat × (Nat × Nat))) :=
+  (calls.zip (List.range calls.length)).map (fun (ls, c) => ls.zip ((List.range ls.length).map (fun i => (c, i))))
+
 def stepR : List String → String
+  | ["session", mode, inf, calls] =>
+    match rat? inf, ratss? calls with
+    | some inf, some calls =>
+      let r := if mode = "stale" then sessionStale (inf, none) (tagCalls calls) else session inf (inf, none) (tagCalls calls)
+      showList ";" "-" showKept r
+    | _, _ => "bad-args"
   | ["conv", tol, thr, every, maxIter, inf, ls] =>
     match rat? tol, nat? thr, nat? every, nat? maxIter, rat? inf, rats? ls with
     | some tol, some thr, some every, some maxIter, some inf, some ls =>
